@@ -1113,6 +1113,39 @@ func genScenario(r *vh.Rng) scenario {
 	return d
 }
 
+// budgetGrid: every statement kind x observer placement x policy placement x policy family, with more usable hosts
+// and more consecutive failures than any budget allows — the same scenarios for every seed and tier.
+func budgetGrid() []scenario {
+	var out []scenario
+	hosts := []string{"1:1:1", "2:1:1", "3:1:1", "4:1:1", "5:1:1", "6:1:1"}
+	type pf struct {
+		policy string
+		fate   string
+	}
+	for _, kind := range []string{"q", "bl", "bu", "bc"} {
+		for _, obs := range []string{"-", "s", "q"} {
+			for _, polAt := range []string{"s", "q"} {
+				for _, x := range []pf{
+					{"none", "e9"}, {"simple:0", "e9"}, {"simple:1", "e2"}, {"simple:3", "e9b"}, {"exp:2", "e9c"},
+					{"down:-", "e7"}, {"down:4.1", "e7"}, {"down:6.10.0", "e1"}, {"down:2", "e5"}, {"down:3.1", "e9"},
+					{"custom:2:rrrrrrrrrrr", "e9"}, {"custom:3:nnnnnnnnnnn", "e4"},
+				} {
+					d := scenario{kind: kind, ctor: "s", policy: x.policy, polAt: polAt, obs: obs, idem: "1", sp: "-", ctx: "-", cons: 4, api: "e",
+						reps: 1, hosts: hosts}
+					for i := 0; i < 7; i++ {
+						d.outcomes = append(d.outcomes, x.fate)
+					}
+					if kind != "q" && obs == "s" && polAt == "s" {
+						d.reps = 2 // the second execution finds the budget used up: exactly one more request
+					}
+					out = append(out, d)
+				}
+			}
+		}
+	}
+	return out
+}
+
 func main() {
 	mode, tier, path := vh.Args()
 	if mode == "replay" {
@@ -1127,11 +1160,11 @@ func main() {
 	if tier == "thorough" {
 		runs = 24000
 	}
-	scen := make([]scenario, runs)
-	for i := range scen {
-		scen[i] = genScenario(r)
+	scen := budgetGrid()
+	for i := 0; i < runs; i++ {
+		scen = append(scen, genScenario(r))
 	}
-	results := make([]string, runs)
+	results := make([]string, len(scen))
 	var wgr sync.WaitGroup
 	sem := make(chan struct{}, 12)
 	for i := range scen {
